@@ -243,22 +243,11 @@ def iopP (i : IOp) (kb : Kind) (x y : ν) : IRes ν ε :=
     | .E => (opSE A .mul x y).store
     | _ => (opSS A .mul x y).store
 
-/-- `self.payload <<= <expr>` inside `CoordPayload.__ilshift__`, which has no `return` -/
-def Res.storeNone : Res ν ε → IRes ν ε
-  | .plain v => .done .none (.val v)
-  | .boxed v => .done .none (.val v)
-  | .typeError => .typeError
-  | .raised e => .raised e
-
-/-- `CoordPayload.__iadd__/__isub__/__imul__` forward to the payload and return `self`;
-    `__ilshift__` assigns `other.payload` for an element but `self.payload + other` otherwise
-    and returns nothing; `__idiv__` is a Python 2 name, so `/=` falls back to `/`. -/
+/-- `CoordPayload.__iadd__/__isub__/__imul__/__ilshift__` forward to the payload
+    (`other.payload` for an element, `other` otherwise) and return `self`;
+    `__idiv__` is a Python 2 name, so `/=` falls back to `/`. -/
 def iopE (i : IOp) (kb : Kind) (x y : ν) : IRes ν ε :=
   match i with
-  | .ishl =>
-    match kb with
-    | .E => .done .none (.val y)
-    | _ => (pyBin A .add .P kb x y).storeNone
   | .idiv => (pyBin A .div .E kb x y).fallback x
   | _ => iopP A i (if kb = .E then .P else kb) x y
 
@@ -288,6 +277,7 @@ def iopSupported : IOp → Kind → Kind → Bool
   | .imul, .E, _ => true
   | .ishl, .P, .P => true
   | .ishl, .P, .S => true
+  | .ishl, .E, _ => true
   | _, _, _ => false
 
 end
